@@ -61,7 +61,7 @@ PANIC_NOTES = [
     # ---- byte iterator
     ("ByteIterator::advance", "index", "debug_buffer[index]", "index = position % DEBUG_RING_BUFFER_SIZE into an array of that size", None),
     ("ByteIterator::next_byte", "index", "self.buffer[self.buffer_pos]", "after the refill branch buffer_pos < buffer_len <= buffer.len() (buffer_len is the count returned by read into that buffer)", None),
-    ("ValueReader::read_varint", "shift", "<< shift", "shift grows by 7 and the loop bails when it reaches 70, so shifts are 0..=63 at the use", {"kind": "body_contains", "callee": "anyhow::__private::format_err"}),
+    ("ValueReader::read_varint", "shift", "<< shift", "shift grows by 7 and the loop bails when it reaches 70, so shifts are 0..=63 at the use", {"kind": "counter_bound", "max": 63}),
     ("types::blob::Blob::read_range", "index", "self.0[", "dominated by `if offset + length > len { bail }`", None),
     # ---- limited cache
     ("LimitedCache::cleanup", "index", "indices[", "cleanup is only called from add() when len >= max_length >= 1, so indices is non-empty and (len-1)/2 < len (C20 I2/I4)", {"kind": "callers_are", "callers": ["versatiles_core::types::limited_cache::LimitedCache::add"]}),
